@@ -204,6 +204,22 @@ func genC07(r *hx.R, tier string, _ string) (*hx.Suite, error) {
 			s.Add(c07Triple(good, good, good))
 		}
 	}
+	// the whole name around and beyond the sizes where a buffer or a "reasonable maximum" would sit (valid names only)
+	for _, total := range []int{4095, 4096, 4097, 8192, 12000} {
+		body := strings.Repeat("abcdefghijklmnopqrstuvwxyz0123456789_-.", total/39+1)
+		for k, split := range [][3]int{{1, 1, total - 4}, {total - 4, 1, 1}, {1, total - 4, 1}, {total / 3, total / 3, total - 2 - 2*(total/3)}} {
+			if tier != "thorough" && k != (total+k)%4 && total != 4096 {
+				continue
+			}
+			part := func(n int) string {
+				if n <= 1 {
+					return "a"
+				}
+				return "a" + body[:n-2] + "z"
+			}
+			s.Add(c07Str(part(split[0])+"/"+part(split[1])+"="+part(split[2]), "long-whole-name"))
+		}
+	}
 	// random grammar-derived names, mutated
 	nRand := 400
 	if tier == "thorough" {
